@@ -182,6 +182,81 @@ def explore_gaps(item):
     return rep
 
 
+# ---------------------------------------------------------------- chained indicators inside a Hexital, both listing orders
+CHAINS = [("EMA", {"period": 2}, "SMA", {"period": 2, "input_value": "EMA_2"}),
+          ("RSI", {"period": 2}, "STDEV", {"period": 2, "input_value": "RSI_2"}),
+          ("SMA", {"period": 3}, "RMA", {"period": 2, "input_value": "SMA_3"}),
+          ("MACD", {"fast_period": 2, "slow_period": 3, "signal_period": 2}, "EMA", {"period": 2, "input_value": "MACD_2_3_2.MACD", "name_suffix": "m"}),
+          ("Supertrend", {"period": 2, "multiplier": 1.0}, "Counter", {"input_value": "Supertrend_2.direction", "count_value": 1})]
+
+
+def explore_chain(item):
+    """A dependent indicator and its source registered in a Hexital in either order (dependent-first leaves the dependent
+    one candle behind or empty - whatever it shows must still be schedule independent and final once shown)."""
+    prop, tier, ci, order, tf = item
+    bind = __import__("hxmc.common", fromlist=["bind_repo"]).bind_repo
+    bind()
+    from hexital import Hexital
+    from hexital.indicators import INDICATOR_MAP
+    from ..common import canon_candles
+    sp = spaces(tier)
+    rep = Report()
+    a_cls, a_kw, b_cls, b_kw = CHAINS[ci]
+    n = sp["n"] + 1
+
+    def members():
+        m = [INDICATOR_MAP[a_cls](**a_kw), INDICATOR_MAP[b_cls](**b_kw)]
+        return m if order == 0 else m[::-1]
+
+    def view(hx):
+        return tuple((k, canon_candles(v)) for k, v in sorted(hx.get_candles().items()))
+
+    kw = {"timeframe": tf} if tf else {}
+    for word in A.words(sp["sigma"][:3], n):
+        raw = raw_stream(word, "+" if tf else "b", ("h" if tf else "t") * (n - 1), tf)
+        case = {"cfg": f"chain{ci}", "chain": ci, "order": order, "tfc": (tf, False, None, None), "raw": raw}
+        try:
+            with deadline(sp["horizon"] * 3):
+                hb = Hexital("b", fresh(raw), members(), **kw)
+                hb.calculate()
+                B = view(hb)
+                rep.inc("executions")
+                for comp in A.compositions(n):
+                    hx = Hexital("s", [], members(), **kw)
+                    pos, snaps = 0, []
+                    for k in comp:
+                        hx.append(fresh(raw[pos:pos + k]))
+                        pos += k
+                        snaps.append(view(hx))
+                    rep.inc("executions")
+                    rep.inc("transitions", len(comp))
+                    rep.add("states", snaps[-1])
+                    if prop == "C01":
+                        if snaps[-1] != B:
+                            rep.violation(f"C01|chain-final!=batch|{b_cls}<-{a_cls}|order{order}", dict(case, comp=comp, oracle="chain-final",
+                                                                                               diff=first_diff(snaps[-1], B)))
+                        elif len(comp) >= 2:
+                            rep.add("nontrivial", ("chain", ci, order, tf, word, comp))
+                    else:
+                        bad = None
+                        for i in range(len(snaps)):
+                            for j in range(i + 1, len(snaps)):
+                                for (k1, c1), (k2, c2) in zip(snaps[i], snaps[j]):
+                                    ci_ = c1[:-1] if tf else c1
+                                    if c2[:len(ci_)] != ci_:
+                                        bad = (i, j, first_diff(ci_, c2[:len(ci_)]))
+                        if bad:
+                            rep.violation(f"C02|chain-repaint|{b_cls}<-{a_cls}|order{order}", dict(case, comp=comp, oracle="chain-repaint", t=bad[0], t2=bad[1], diff=bad[2]))
+                        elif len(comp) >= 2:
+                            rep.add("nontrivial", ("chain", ci, order, tf, word, comp))
+        except Horizon:
+            rep.violation(f"{prop}|horizon|chain{ci}", dict(case, why="horizon"))
+        except Exception as e:
+            rep.inc("chain_raised_" + type(e).__name__)
+    rep.sample({"chain": CHAINS[ci], "order": "source first" if order == 0 else "dependent first", "tf": tf, "raw": raw})
+    return rep
+
+
 # ---------------------------------------------------------------- step confluence (deeper N)
 
 
@@ -262,12 +337,14 @@ def explore_step(item):
 
 def replay(case):
     """Re-execute one recorded case without the explorer; True iff it still violates."""
-    cfg = BY_LABEL[case["cfg"]]
-    tfc = tuple(case["tfc"])
-    raw = [tuple(r) for r in case["raw"]]
     orc = case.get("oracle")
     if case.get("why"):
         return True
+    if orc in ("chain-final", "chain-repaint"):
+        return explore_chain_one(case, "C01" if orc == "chain-final" else "C02")
+    cfg = BY_LABEL[case["cfg"]]
+    tfc = tuple(case["tfc"])
+    raw = [tuple(r) for r in case["raw"]]
     try:
         if orc in ("final!=batch", "schedule-raised"):
             B = obs(batch(cfg, raw, tfc))
@@ -307,6 +384,44 @@ def replay(case):
     return True
 
 
+def explore_chain_one(case, prop):
+    """Replay of one chain case: re-run the single (stream, composition) without the explorer."""
+    bind_repo = __import__("hxmc.common", fromlist=["bind_repo"]).bind_repo
+    bind_repo()
+    from hexital import Hexital
+    from hexital.indicators import INDICATOR_MAP
+    from ..common import canon_candles
+    a_cls, a_kw, b_cls, b_kw = CHAINS[case["chain"]]
+    tf = case["tfc"][0]
+    kw = {"timeframe": tf} if tf else {}
+    raw = [tuple(r) for r in case["raw"]]
+
+    def members():
+        m = [INDICATOR_MAP[a_cls](**a_kw), INDICATOR_MAP[b_cls](**b_kw)]
+        return m if case["order"] == 0 else m[::-1]
+
+    def view(hx):
+        return tuple((k, canon_candles(v)) for k, v in sorted(hx.get_candles().items()))
+
+    hb = Hexital("b", fresh(raw), members(), **kw)
+    hb.calculate()
+    hx = Hexital("s", [], members(), **kw)
+    pos, snaps = 0, []
+    for k in case["comp"]:
+        hx.append(fresh(raw[pos:pos + k]))
+        pos += k
+        snaps.append(view(hx))
+    if prop == "C01":
+        return snaps[-1] != view(hb)
+    for i in range(len(snaps)):
+        for j in range(i + 1, len(snaps)):
+            for (k1, c1), (k2, c2) in zip(snaps[i], snaps[j]):
+                c = c1[:-1] if tf else c1
+                if c2[:len(c)] != c:
+                    return True
+    return False
+
+
 def main(prop, tier):
     t0 = time.time()
     sp = spaces(tier)
@@ -326,6 +441,7 @@ def main(prop, tier):
     reps = pmap(explore, items)
     gap_items = [(prop, tier, l, tfc, first, g0) for l in PLUMB_POOL for tfc in sp["plumb_tfcs"] for first in "+b" for g0 in sp["plumb_gaps"]]
     reps += pmap(explore_gaps, gap_items)
+    reps += pmap(explore_chain, [(prop, tier, ci, order, tf) for ci in range(len(CHAINS)) for order in (0, 1) for tf in (None, "T2")])
     step_its = []
     for cfg in ALL:
         for tfc, gkinds in sp["tfcs"]:
